@@ -67,6 +67,9 @@ type Doc struct {
 	Paths    []*PathItem
 	Comps    []*Component
 	Security []map[string][]string
+	// TagsSection is the document's top-level tags list (descriptions of tags): it need not name every tag the operations
+	// carry, and may name tags no operation carries; filtering goes by the operations' own tags
+	TagsSection []string
 }
 
 func (c *Component) Ref() string { return "#/components/" + c.Kind + "/" + c.Name }
@@ -191,6 +194,13 @@ func (d *Doc) JSONValue() map[string]any {
 	}
 	if d.Security != nil {
 		root["security"] = d.Security
+	}
+	if len(d.TagsSection) > 0 {
+		var ts []any
+		for _, t := range d.TagsSection {
+			ts = append(ts, map[string]any{"name": t, "description": "about " + t})
+		}
+		root["tags"] = ts
 	}
 	return root
 }
@@ -356,7 +366,7 @@ func (c FilterCfg) Keep(o *Operation) bool {
 
 // SpecFilter returns a copy of d holding only the kept operations (path items stay).
 func SpecFilter(d *Doc, c FilterCfg) *Doc {
-	out := &Doc{Comps: d.Comps, Security: d.Security}
+	out := &Doc{Comps: d.Comps, Security: d.Security, TagsSection: d.TagsSection}
 	for _, p := range d.Paths {
 		np := &PathItem{Path: p.Path, Params: p.Params}
 		for _, o := range p.Ops {
@@ -415,7 +425,7 @@ func SpecPrune(d *Doc) *Doc {
 		}
 		cur = next
 	}
-	return &Doc{Paths: d.Paths, Comps: cur, Security: d.Security}
+	return &Doc{Paths: d.Paths, Comps: cur, Security: d.Security, TagsSection: d.TagsSection}
 }
 
 // Reachable returns the component refs reachable from the path items.
